@@ -407,13 +407,48 @@ def propagate_new_constants(trees, inv):
                     stores += 5      # mutated in place
         if stores == 1:
             good[nm] = defs[0][1].value
-    if not good:
+    # class-level constants (`_REGISTRIES = ("nodes", ..)` in a class body, read as self._REGISTRIES): same, for attribute names the
+    # inventory's code never uses, bound once, never stored to or mutated through any receiver
+    vocab = {tk[2:] for m in inv.get("functions", {}).values() for toks in m.values() for tk in toks if tk.startswith("A:")}
+    vocab |= {a for c in inv.get("attrs", {}).values() for a in c}
+    cgood = {}
+    for mod, t in trees.items():
+        for c in t.body:
+            if isinstance(c, ast.ClassDef):
+                for n in c.body:
+                    if isinstance(n, ast.Assign) and len(n.targets) == 1 and isinstance(n.targets[0], ast.Name) and _literal(n.value):
+                        nm = n.targets[0].id
+                        if nm in vocab or nm in known or nm.startswith("__"):
+                            continue
+                        cgood.setdefault(nm, []).append(n.value)
+    for nm in list(cgood):
+        bad = len(cgood[nm]) != 1
+        for mod, t in trees.items():
+            for x in ast.walk(t):
+                if isinstance(x, ast.Attribute) and x.attr == nm and isinstance(x.ctx, (ast.Store, ast.Del)):
+                    bad = True
+                elif isinstance(x, (ast.Subscript, ast.Attribute)) and isinstance(x.ctx, (ast.Store, ast.Del)) and isinstance(x.value, ast.Attribute) and x.value.attr == nm:
+                    bad = True
+                elif isinstance(x, ast.Call) and isinstance(x.func, ast.Attribute) and isinstance(x.func.value, ast.Attribute) and x.func.value.attr == nm \
+                        and x.func.attr in ("append", "extend", "update", "pop", "clear", "remove", "insert", "setdefault", "sort", "reverse"):
+                    bad = True
+                elif isinstance(x, ast.Call) and isinstance(x.func, ast.Name) and x.func.id in ("setattr", "delattr"):
+                    bad = True
+        if bad:
+            del cgood[nm]
+    if not good and not cgood:
         return
 
     class T(ast.NodeTransformer):
         def visit_Name(self, n):
             if isinstance(n.ctx, ast.Load) and n.id in good:
                 return ast.copy_location(_clone(good[n.id]), n)
+            return n
+
+        def visit_Attribute(self, n):
+            self.generic_visit(n)
+            if isinstance(n.ctx, ast.Load) and n.attr in cgood and isinstance(n.value, ast.Name):
+                return ast.copy_location(_clone(cgood[n.attr][0]), n)
             return n
     for mod, t in trees.items():
         T().visit(t)
@@ -1899,6 +1934,185 @@ def new_context_managers_to_try(trees, inv):
     return notes
 
 
+def unroll_new_literal_loops(trees, inv):
+    """`for a, b in zip(("x", "y"), (p, q)): BODY` / `for a in ("x", "y"): BODY` in a function that has more loops than the inventory's
+    version of it (the loop arrived with a helper, or replaced a run of statements): BODY once per element, the loop variables written
+    out.  Only bodies without break / continue / else whose loop variables are neither re-bound inside nor read after the loop."""
+    notes = []
+    for mod, t in trees.items():
+        for scope, owner, fn in list(scopes(t)):
+            q = (scope + "." if scope else "") + fn.name
+            toks = inv.get("functions", {}).get(mod, {}).get(q)
+            if toks is None:
+                continue
+            if sum(1 for x in ast.walk(fn) if isinstance(x, ast.For)) <= toks.count("For"):
+                continue
+            done = 0
+            for _round in range(3):
+                hit = False
+                for blk_owner in list(ast.walk(fn)):
+                    for fld in ("body", "orelse", "finalbody"):
+                        blk = getattr(blk_owner, fld, None)
+                        if not (isinstance(blk, list) and blk and isinstance(blk[0], ast.stmt)):
+                            continue
+                        i = 0
+                        while i < len(blk):
+                            st = blk[i]
+                            rows = None
+                            drop_binding = None
+                            if isinstance(st, ast.For) and not st.orelse:
+                                it = st.iter
+                                if isinstance(it, (ast.Tuple, ast.List)) and 1 <= len(it.elts) <= 8 and not any(isinstance(e, ast.Starred) for e in it.elts):
+                                    rows = list(it.elts)
+                                elif isinstance(it, ast.Call) and isinstance(it.func, ast.Name) and it.func.id == "zip" and not it.keywords and len(it.args) >= 2 \
+                                        and all(isinstance(a, (ast.Tuple, ast.List)) and not any(isinstance(e, ast.Starred) for e in a.elts) for a in it.args) \
+                                        and len({len(a.elts) for a in it.args}) == 1 and 1 <= len(it.args[0].elts) <= 8:
+                                    rows = [ast.Tuple(elts=[a.elts[k] for a in it.args], ctx=ast.Load()) for k in range(len(it.args[0].elts))]
+                                elif isinstance(it, ast.Call) and isinstance(it.func, ast.Attribute) and it.func.attr == "items" and not it.args and not it.keywords \
+                                        and isinstance(it.func.value, ast.Name):
+                                    # a local bound once to a dictionary display just for this loop
+                                    dn = it.func.value.id
+                                    refs = [y for y in ast.walk(fn) if isinstance(y, ast.Name) and y.id == dn]
+                                    asg = [y for y in blk[:i] if isinstance(y, ast.Assign) and len(y.targets) == 1 and isinstance(y.targets[0], ast.Name) and y.targets[0].id == dn]
+                                    if len(refs) == 2 and len(asg) == 1 and isinstance(asg[0].value, ast.Dict) and 1 <= len(asg[0].value.keys) <= 8 \
+                                            and all(isinstance(k, ast.Constant) for k in asg[0].value.keys) and blk[i - 1] is asg[0]:
+                                        rows = [ast.Tuple(elts=[k, v], ctx=ast.Load()) for k, v in zip(asg[0].value.keys, asg[0].value.values)]
+                                        drop_binding = asg[0]
+                            if rows is not None:
+                                tv = [y.id for y in ast.walk(st.target) if isinstance(y, ast.Name)]
+                                flat = isinstance(st.target, ast.Name) or (isinstance(st.target, (ast.Tuple, ast.List)) and all(isinstance(e, ast.Name) for e in st.target.elts))
+                                inner_ctl = any(isinstance(y, (ast.Break, ast.Continue)) for b in st.body for y in ast.walk(b))
+                                rebound = any(isinstance(y, ast.Name) and y.id in tv and isinstance(y.ctx, (ast.Store, ast.Del)) for b in st.body for y in ast.walk(b))
+                                inside = {id(y) for y in ast.walk(st)}
+                                read_after = any(isinstance(y, ast.Name) and y.id in tv and id(y) not in inside for y in ast.walk(fn))
+                                # every element must be usable by value: only names / constants / paths / empty displays are copied
+                                def simple(e):
+                                    return _pure_path(e) or (isinstance(e, (ast.Dict, ast.List, ast.Tuple)) and not (getattr(e, "keys", None) or getattr(e, "elts", None)))
+                                if isinstance(st.target, ast.Name):
+                                    cells = [[r] for r in rows]
+                                else:
+                                    cells = [list(r.elts) if isinstance(r, (ast.Tuple, ast.List)) and len(r.elts) == len(tv) else None for r in rows]
+                                if flat and not inner_ctl and not rebound and not read_after and all(c is not None and all(simple(e) for e in c) for c in cells):
+                                    seq = []
+                                    for c in cells:
+                                        b = dict(zip(tv, c))
+
+                                        class S(ast.NodeTransformer):
+                                            def visit_Name(self, n):
+                                                if n.id in b and isinstance(n.ctx, ast.Load):
+                                                    return ast.copy_location(_clone(b[n.id]), n)
+                                                return n
+                                        seq += [S().visit(_clone(x)) for x in st.body]
+                                    for k, z in enumerate(seq):
+                                        z._inl = getattr(st, "_inl", 0)
+                                    if drop_binding is not None:
+                                        blk[i - 1:i + 1] = seq
+                                        i -= 1
+                                    else:
+                                        blk[i:i + 1] = seq
+                                    i += len(seq)
+                                    done += 1
+                                    hit = True
+                                    continue
+                            i += 1
+                if not hit:
+                    break
+            if done:
+                ast.fix_missing_locations(fn)
+                notes.append("loops over literal sequences written out in %s: %d" % (q, done))
+    return notes
+
+
+def fold_none_tests_on_containers(trees, touched_only=None):
+    """`x is None` / `x is not None` where the local x (no parameter) is only ever bound to a display, a comprehension or a constant other
+    than None: decided (such tests arrive with written-out helpers whose optional argument was given)"""
+    notes = []
+    for mod, t in trees.items():
+        for scope, owner, fn in list(scopes(t)):
+            params = {a.arg for a in fn.args.posonlyargs + fn.args.args + fn.args.kwonlyargs} | ({fn.args.vararg.arg} if fn.args.vararg else set()) | \
+                ({fn.args.kwarg.arg} if fn.args.kwarg else set())
+            tests = [c for c in ast.walk(fn) if isinstance(c, ast.Compare) and len(c.ops) == 1 and isinstance(c.ops[0], (ast.Is, ast.IsNot)) and isinstance(c.left, ast.Name)
+                     and isinstance(c.comparators[0], ast.Constant) and c.comparators[0].value is None and c.left.id not in params]
+            if not tests:
+                continue
+            never_none = {}
+            for nm in {c.left.id for c in tests}:
+                stores = [y for y in ast.walk(fn) if isinstance(y, ast.Name) and y.id == nm and isinstance(y.ctx, (ast.Store, ast.Del))]
+                asg = [a for a in ast.walk(fn) if isinstance(a, ast.Assign) and len(a.targets) == 1 and isinstance(a.targets[0], ast.Name) and a.targets[0].id == nm]
+                aug = [a for a in ast.walk(fn) if isinstance(a, ast.AugAssign) and isinstance(a.target, ast.Name) and a.target.id == nm and isinstance(a.op, ast.Add)
+                       and isinstance(a.value, (ast.List, ast.ListComp))]
+                if stores and asg and len(asg) + len(aug) == len(stores) and all(
+                        isinstance(a.value, (ast.List, ast.Dict, ast.Tuple, ast.Set, ast.ListComp, ast.DictComp, ast.SetComp)) or
+                        (isinstance(a.value, ast.Constant) and a.value.value is not None) for a in asg) \
+                        and not any(isinstance(g, (ast.Global, ast.Nonlocal)) and nm in g.names for g in ast.walk(fn)):
+                    never_none[nm] = True
+            if not never_none:
+                continue
+            hit = [0]
+
+            class F(ast.NodeTransformer):
+                def visit_Compare(self, c):
+                    self.generic_visit(c)
+                    if any(c is x for x in tests) and c.left.id in never_none:
+                        hit[0] += 1
+                        return ast.copy_location(ast.Constant(value=isinstance(c.ops[0], ast.IsNot)), c)
+                    return c
+            fn.body = [F().visit(x) for x in fn.body]
+            if hit[0]:
+                fn.body = [_Fold().visit(x) for x in fn.body]
+                fn.body = _fold_block(fn.body) or [ast.Pass()]
+                ast.fix_missing_locations(fn)
+                notes.append("None tests on locals that hold containers decided in %s" % fn.name)
+    return notes
+
+
+def enumerate_index_only(trees, inv):
+    """`for i, _ in enumerate(X)` whose element variable is never read is `for i in range(len(X))` (loops and comprehensions), in
+    functions whose inventory version does not use enumerate"""
+    notes = []
+    for mod, t in trees.items():
+        for scope, owner, fn in list(scopes(t)):
+            q = (scope + "." if scope else "") + fn.name
+            toks = inv.get("functions", {}).get(mod, {}).get(q)
+            if toks is None or "N:enumerate" in toks:
+                continue
+            n = 0
+
+            def fix(target, it, readers):
+                if isinstance(target, ast.Tuple) and len(target.elts) == 2 and all(isinstance(e, ast.Name) for e in target.elts) \
+                        and isinstance(it, ast.Call) and isinstance(it.func, ast.Name) and it.func.id == "enumerate" and len(it.args) == 1 and not it.keywords \
+                        and _pure_path(it.args[0]):
+                    el = target.elts[1].id
+                    if not any(isinstance(y, ast.Name) and y.id == el and isinstance(y.ctx, ast.Load) for r in readers for y in ast.walk(r)):
+                        new_it = ast.copy_location(ast.Call(func=ast.Name(id="range", ctx=ast.Load()), args=[
+                            ast.Call(func=ast.Name(id="len", ctx=ast.Load()), args=[it.args[0]], keywords=[])], keywords=[]), it)
+                        return ast.copy_location(ast.Name(id=target.elts[0].id, ctx=ast.Store()), target), new_it
+                return None
+            for x in ast.walk(fn):
+                if isinstance(x, ast.For):
+                    after = [y for y in ast.walk(fn) if isinstance(y, ast.Name)]
+                    r = fix(x.target, x.iter, x.body + x.orelse)
+                    if r and isinstance(x.target, ast.Tuple):
+                        el = x.target.elts[1].id
+                        inside = {id(y) for y in ast.walk(x)}
+                        if any(y.id == el and isinstance(y.ctx, ast.Load) and id(y) not in inside for y in after):
+                            continue
+                        x.target, x.iter = r
+                        n += 1
+                elif isinstance(x, (ast.ListComp, ast.SetComp, ast.GeneratorExp, ast.DictComp)):
+                    for g in x.generators:
+                        readers = ([x.key, x.value] if isinstance(x, ast.DictComp) else [x.elt]) + list(g.ifs) + [h.iter for h in x.generators if h is not g] + \
+                            [c for h in x.generators if h is not g for c in h.ifs]
+                        r = fix(g.target, g.iter, readers)
+                        if r:
+                            g.target, g.iter = r
+                            n += 1
+            if n:
+                ast.fix_missing_locations(fn)
+                notes.append("enumerate() used for its index only read as range(len()) in %s" % q)
+    return notes
+
+
 def fromkeys_to_dictcomps(trees, inv):
     """`d = dict.fromkeys(IT[, V])` is `{k: V for k in IT}` (first-seen order, duplicates collapse): written as the comprehension so
     that the comprehension passes below see it.  Only as the whole right-hand side of a local's assignment."""
@@ -2019,13 +2233,17 @@ def canonicalise(trees, specialise=True):
         # the set of unknown functions shrinks by the renamed ones
         _, news = detect_function_renames(trees, inv)
     notes += new_context_managers_to_try(trees, inv)
+    notes += enumerate_index_only(trees, inv)
     notes += fromkeys_to_dictcomps(trees, inv)
     notes += listcomps_to_loops(trees, inv)
     notes += next_scans_to_loops(trees, inv)
     done = inline_new_helpers(trees, inv, news)
     for c, h in done:
         notes.append("inlined new helper %s into %s" % (h, c))
+    if done:
+        notes += fold_none_tests_on_containers(trees)
     notes += split_new_tuple_locals(trees, inv)
+    notes += unroll_new_literal_loops(trees, inv)
     notes += inline_new_aliases(trees, inv)
     notes += inline_new_values(trees, inv)
     if notes:
